@@ -1520,3 +1520,4 @@ func carrierFieldValues(base ssa.Value, idx int, depth int) ([]ssa.Value, bool) 
 	}
 	return nil, false
 }
+
